@@ -210,6 +210,8 @@ func TestC02(t *testing.T) {
 		}
 		return sig, msg
 	}, func(s string) { t.Fatalf("%s", s) })
+	// the soak history: no lint fails internally on an object met again after many distinct others
+	soakHistory(rec, stats.Scale(1600, 12000), soakVisitC02, func(s string) { t.Fatalf("%s", s) })
 	// enumerated: revocation lists over the calendar x the CRL lint's option
 	forEachCalendarCRL(func(c engine.Case) {
 		rec.Class("calendar_crl")
